@@ -110,3 +110,15 @@ func (db *DB) VerifLookup(key types.Key) (types.Entry, bool) { return db.manager
 
 // VerifWatermark is the version-discard watermark compaction would use now.
 func (db *DB) VerifWatermark() uint64 { return db.oracle.discardAtOrBelow() }
+
+// ---- timestamps (C07: exact reference verdicts under fine-grained schedules)
+
+// VerifReadTs is the transaction's read timestamp: the transaction sees the
+// commits whose timestamp is at or below it and no others.
+func (t *Txn) VerifReadTs() uint64 { return t.readTs }
+
+// VerifGetAt is what a Get of key by a transaction with read timestamp ts
+// resolves to in the store.
+func (db *DB) VerifGetAt(key string, ts uint64) ([]byte, bool) {
+	return db.search(types.KeyWithTs(key, ts))
+}
